@@ -767,7 +767,7 @@ func Run(r *core.Run) {
 	r.Assume("inputs inside a batch child are only screened (diagnostic texts, a 20 s wall-clock monitor, the journal of inputs in progress); every verdict about time or a crash comes from re-running the single (input, loader, flag set) alone in a fresh process")
 	r.Assume("no coverage feedback: enumeration and scripted mutation only (DESIGN.md section 6)")
 
-	c.pool(r.Pick(5, 6))
+	c.pool(r.Pick(5, 8))
 	var wg sync.WaitGroup
 	wg.Add(1)
 	go func() { defer wg.Done(); faults(c) }()
